@@ -41,7 +41,7 @@ DESTS = ["c1", "c2", "c10"]
 SENDERS = ["s1", "s2", "x"]
 TYPES = [10, 15, 20, None]
 
-op_post = st.tuples(st.just("post"), st.integers(0, 2), st.integers(0, 2), st.sampled_from(TYPES))
+op_post = st.tuples(st.just("post"), st.integers(0, 2), st.sampled_from([0, 1, 2, 2]), st.sampled_from(TYPES))
 op_reg = st.tuples(st.just("register"), st.integers(0, 2))
 # a registration during which "another thread" posts to the computation being registered: the post lands after the
 # registration became visible and before Messaging's registration callback ran (the harness owns this interleaving)
@@ -66,7 +66,9 @@ def seq_cases(draw):
     if draw(st.integers(0, 2)) == 0:
         pos = draw(st.integers(0, len(ops)))
         ops.insert(pos, ["shutdown"])
-    return {"mode": "seq", "pre_registered": draw(st.lists(st.integers(0, 2), max_size=3, unique=True)), "ops": ops}
+    # destination 2 is rarely registered from the start: posts to it pile up until a register operation
+    pre = draw(st.lists(st.integers(0, 1), max_size=2, unique=True)) + ([2] if draw(st.integers(0, 4)) == 0 else [])
+    return {"mode": "seq", "pre_registered": pre, "ops": ops}
 
 
 @st.composite
